@@ -570,14 +570,26 @@ def reassign_matrix():
         lambda: App(Fn([Param("q")], Block([Bin("+", Id("q"), X())])), [X()]),
         lambda: Match(X(), [Arm([PLit(Int(3))], Block([Tuple([Str("three"), X()])])), Arm([PId("k")], Block([Tuple([Id("k"), X()])]))]),
         lambda: Switch([Cmp(["=="], [X(), Int(3)]), Bool(True)], [Block([Bin("+", X(), Int(1))]), Block([X()])], Block([Int(0)])),
+        # assignments used as values: the container is updated at the position the old value of x names
+        lambda: IOpAsg(Id("l"), X(), "+", Int(10)), lambda: IAsg(Id("l"), X(), Bin("+", X(), Int(5))), lambda: DOpAsg(Id("mp"), "k", "+", X()),
+        lambda: OpAsg("y", "+", X()), lambda: Idx(Idx(Id("ll"), X()), X()), lambda: IOpAsg(Idx(Id("ll"), X()), X(), "*", Int(2)),
+        lambda: Idx(Id("l"), Range(X(), Bin("+", X(), Int(1)))),
     ]
-    values = [lambda: Int(3), lambda: Int(0), lambda: Null(), lambda: List([Int(7)])]
+    # ... and every shape again as the operand of a unary or binary operator directly under the assignment (the operator's
+    # result goes to x; its operand must not be built in x's place while x is still being read)
+    wrappers = [lambda s: s, lambda s: Not(s), lambda s: Neg(s), lambda s: Bin("+", s, Int(1)), lambda s: Bin("-", Int(1), s)]
+    values = [lambda: Int(3), lambda: Int(0), lambda: Null(), lambda: List([Int(7)]), lambda: Int(1)]
     for si, sh in enumerate(shapes):
-        for vi, v in enumerate(values):
-            for twice in (False, True):
-                reset_ids()
-                xs = [Asg("x", v()), Asg("y", Int(5)), Asg("n", Null()), Asg("t", Bool(True)), Asg("x", sh())]
-                if twice:
-                    xs.append(Asg("x", sh()))
-                xs += [Core("print", [Id("x")]), Id("x")]
-                yield Block(xs)
+        for wi, w in enumerate(wrappers):
+            for vi, v in enumerate(values):
+                for twice in (False, True):
+                    if wi > 0 and (twice and vi > 1 or sh()["k"] in ("match", "switch")):
+                        continue
+                    reset_ids()
+                    xs = [Asg("x", v()), Asg("y", Int(5)), Asg("n", Null()), Asg("t", Bool(True)),
+                          Asg("l", List([Int(10), Int(20), Int(30), Int(40)])), Asg("mp", Map(["k"], [Int(1)])),
+                          Asg("ll", List([List([Int(1), Int(2)]), List([Int(3), Int(0)])])), Asg("x", w(sh()))]
+                    if twice:
+                        xs.append(Asg("x", w(sh())))
+                    xs += [Core("print", [Tuple([Id("x"), Id("y"), Id("l"), Id("mp"), Id("ll")])]), Id("x")]
+                    yield Block(xs)
